@@ -66,15 +66,31 @@ class CondensedReactionGraph(MolGraph):
         s_colors = {a: int(c) for a,c in zip(self.atoms, s_color_array)}
 
         return any(
-                vf2pp_all_isomorphisms(
-                    self,
-                    other,
-                    atom_labels=(s_colors, o_colors),
-                    stereo=False,
-                    stereo_change=False,
-                    subgraph=False,
-                )
+            self._bond_changes_preserved(other, mapping)
+            for mapping in vf2pp_all_isomorphisms(
+                self,
+                other,
+                atom_labels=(s_colors, o_colors),
+                stereo=False,
+                stereo_change=False,
+                subgraph=False,
             )
+        )
+
+    def _bond_changes_preserved(
+        self, other: CondensedReactionGraph, mapping: dict[AtomId, AtomId]
+    ) -> bool:
+        """
+        The isomorphism search does not look at bonds attributes. Checks if
+        every bond is mapped on a bond with the same change (reaction).
+        """
+        for bond, attrs in self._bond_attrs.items():
+            o_attrs = other._bond_attrs.get(Bond(mapping[a] for a in bond))
+            if o_attrs is None or (
+                o_attrs.get("reaction", None) != attrs.get("reaction", None)
+            ):
+                return False
+        return True
 
     def add_bond(self, atom1: int, atom2: int, **attr: Any):
         """
